@@ -118,6 +118,9 @@ type World struct {
 	// Final is a snapshot of unfinished tasks taken just before teardown.
 	Final []string
 
+	idleWaiters []*Task
+	IdleWakes   int
+
 	policy    int
 	last      *Task
 	preemptK  int
@@ -375,6 +378,25 @@ func (w *World) Block(t *Task, site, waitOn string) {
 	w.park(t, Blocked, site, waitOn)
 }
 
+// WaitIdle parks the caller until the world is quiescent: nothing is runnable
+// and no event is pending. Used for quiescence assertions ("nothing happens
+// until X arrives").
+//
+//go:norace
+func (w *World) WaitIdle(site string) {
+	if w.dead {
+		runtime.Goexit()
+	}
+	t := w.Me()
+	if t == nil {
+		panic("kernel: WaitIdle outside a task")
+	}
+	w.lock()
+	w.idleWaiters = append(w.idleWaiters, t)
+	w.unlock()
+	w.park(t, Blocked, site, "idle")
+}
+
 // Wake makes a blocked task runnable (it runs when the scheduler picks it).
 //
 //go:norace
@@ -541,6 +563,19 @@ func (w *World) Run() Outcome {
 			var d time.Duration = -1
 			if len(w.events) > 0 {
 				d = w.events[0].at - now
+			}
+			if d < 0 && len(w.idleWaiters) > 0 {
+				// quiescent: release the tasks waiting for exactly that
+				for i, t := range w.idleWaiters {
+					if t.state == Blocked {
+						t.state = Runnable
+					}
+					w.idleWaiters[i] = nil
+				}
+				w.idleWaiters = w.idleWaiters[:0]
+				w.IdleWakes++
+				w.unlock()
+				continue
 			}
 			if external > 0 {
 				// some task is blocked in a runtime primitive (timer, channel):
